@@ -2,15 +2,22 @@
 (* Multi-file runs of actionlint: linter.go LintFiles, project.go (Projects.At / Project.Knows),
    action_metadata.go / reusable_workflow.go (per-project caches shared by the file goroutines).
 
-   Resolve(k)        sequential, before any worker: the project of the k-th argument is the first
-                     known project that "knows" the path, else it is searched in the parents.
-   Start(f)          the goroutine of file f begins (after all Resolve steps)
-   RegisterCallee(f) a file that is itself a reusable workflow registers its interface, derived
-                     from the in-memory AST, unless the cache already has an entry
-   ReadCache(f)      next local spec used by f: hit -> use the cached interface
-   MissWrite(f)      miss -> derive the interface from the callee FILE and write it
-                     (read and write are separate steps: two workers may both miss)
-   Finish(f)
+   Every file has a PROGRAM: the sequence of cache operations its goroutine performs, in the order the
+   rules perform them - <<"reg", spec>> (the file is itself a reusable workflow and registers the
+   interface derived from its AST, WriteWorkflowCallEvent) and <<"use", spec>> (FindMetadata of a local
+   action or reusable workflow).  For the bounded model the programs are constants; for the scheduler
+   gate they are read off a recorded run of the real code (hook points rw-reg-read / rw-read / ac-read).
+
+   Resolve(k)     sequential, before any worker: the project of the k-th argument is the first
+                  known project that "knows" the path, else it is searched in the parents.
+   Start(f)       the goroutine of file f begins (after all Resolve steps)           [hook file-go]
+   RegRead(f)     "reg": look the spec up; present -> nothing to do                   [rw-reg-read]
+   RegWrite(f)    "reg": absent at RegRead -> write the AST-derived interface (a separate step:
+                  another worker may have written in between and is overwritten)      [rw-reg-write]
+   ReadCache(f)   "use": hit -> use the cached interface                              [rw-read, ac-read]
+   MissWrite(f)   "use": miss -> derive the interface from the FILE and write it
+                  (read and write are separate steps: two workers may both miss)      [rw-write, ac-write]
+   Finish(f)                                                                          [file-done]
 
    Checked for every argument order and interleaving: every file is attributed to the repository
    that contains it (segment-wise), and the interface a file sees for each spec is the one it
@@ -20,8 +27,7 @@ EXTENDS Naturals, Sequences, FiniteSets, TLC, Json
 
 CONSTANTS Files,        \* file ids
           RepoOf,       \* [Files -> repository name or "none"]
-          Uses,         \* [Files -> sequence of local specs (reusable workflows) used by the file]
-          CalleeSpec,   \* [Files -> spec the file itself provides or "none"]
+          Prog,         \* [Files -> sequence of <<"reg" | "use", spec>>]
           NamePrefix,   \* set of <<a, b>>: repository directory name a is a proper string prefix of b (siblings)
           KnowsMode,    \* "segments" (intended) | "stringprefix" (what strings.HasPrefix on paths does)
           Agree         \* TRUE: interface derived from the AST = interface derived from the file
@@ -30,7 +36,12 @@ VARIABLES args, k, known, proj, cache, pc, idx, seen
 vars == <<args, k, known, proj, cache, pc, idx, seen>>
 
 Repos == {RepoOf[f] : f \in Files} \ {"none"}
-Specs == UNION {{Uses[f][i] : i \in DOMAIN Uses[f]} : f \in Files}
+Specs == UNION {{Prog[f][i][2] : i \in DOMAIN Prog[f]} : f \in Files}
+Op(f) == Prog[f][idx[f]]
+\* the specs a file uses, in program order (what Isolation talks about)
+RECURSIVE UsesFrom(_, _)
+UsesFrom(p, i) == IF i > Len(p) THEN <<>> ELSE IF p[i][1] = "use" THEN <<p[i][2]>> \o UsesFrom(p, i + 1) ELSE UsesFrom(p, i + 1)
+Uses(f) == UsesFrom(Prog[f], 1)
 Range(s) == {s[i] : i \in DOMAIN s}
 
 \* does project p claim the file f ?
@@ -62,17 +73,24 @@ Resolve ==
 
 Started == k > Len(args)
 Start(f) == /\ Started /\ f \in Range(args) /\ pc[f] = "idle"
-            /\ pc' = [pc EXCEPT ![f] = IF CalleeSpec[f] # "none" THEN "register" ELSE "use"]
+            /\ pc' = [pc EXCEPT ![f] = "run"]
             /\ UNCHANGED <<args, k, known, proj, cache, idx, seen>>
-RegisterCallee(f) ==
-  /\ pc[f] = "register"
-  /\ LET r == proj[f] s == CalleeSpec[f] IN
-     cache' = IF r \in Repos /\ cache[r][s] = "absent" THEN [cache EXCEPT ![r][s] = "ast"] ELSE cache
-  /\ pc' = [pc EXCEPT ![f] = "use"]
-  /\ UNCHANGED <<args, k, known, proj, idx, seen>>
+AtOp(f, o) == pc[f] = "run" /\ idx[f] <= Len(Prog[f]) /\ Op(f)[1] = o
+RegRead(f) ==
+  /\ AtOp(f, "reg")
+  /\ LET r == proj[f] s == Op(f)[2] IN
+     IF r \in Repos /\ cache[r][s] = "absent"
+       THEN pc' = [pc EXCEPT ![f] = "regwrite"] /\ UNCHANGED idx
+       ELSE idx' = [idx EXCEPT ![f] = @ + 1] /\ UNCHANGED pc
+  /\ UNCHANGED <<args, k, known, proj, cache, seen>>
+RegWrite(f) ==
+  /\ pc[f] = "regwrite"
+  /\ cache' = [cache EXCEPT ![proj[f]][Op(f)[2]] = "ast"]      \* unconditional: overwrites what was written since RegRead
+  /\ idx' = [idx EXCEPT ![f] = @ + 1] /\ pc' = [pc EXCEPT ![f] = "run"]
+  /\ UNCHANGED <<args, k, known, proj, seen>>
 ReadCache(f) ==
-  /\ pc[f] = "use" /\ idx[f] <= Len(Uses[f])
-  /\ LET r == proj[f] s == Uses[f][idx[f]] IN
+  /\ AtOp(f, "use")
+  /\ LET r == proj[f] s == Op(f)[2] IN
      IF r \in Repos /\ cache[r][s] # "absent"
        THEN /\ seen' = [seen EXCEPT ![f] = Append(@, Iface(s, cache[r][s]))]
             /\ idx' = [idx EXCEPT ![f] = @ + 1] /\ UNCHANGED pc
@@ -80,20 +98,20 @@ ReadCache(f) ==
   /\ UNCHANGED <<args, k, known, proj, cache>>
 MissWrite(f) ==
   /\ pc[f] = "miss"
-  /\ LET r == proj[f] s == Uses[f][idx[f]] IN
+  /\ LET r == proj[f] s == Op(f)[2] IN
      /\ cache' = IF r \in Repos THEN [cache EXCEPT ![r][s] = "file"] ELSE cache
      /\ seen' = [seen EXCEPT ![f] = Append(@, Iface(s, "file"))]
-  /\ idx' = [idx EXCEPT ![f] = @ + 1] /\ pc' = [pc EXCEPT ![f] = "use"]
+  /\ idx' = [idx EXCEPT ![f] = @ + 1] /\ pc' = [pc EXCEPT ![f] = "run"]
   /\ UNCHANGED <<args, k, known, proj>>
-Finish(f) == /\ pc[f] = "use" /\ idx[f] > Len(Uses[f]) /\ pc' = [pc EXCEPT ![f] = "done"]
+Finish(f) == /\ pc[f] = "run" /\ idx[f] > Len(Prog[f]) /\ pc' = [pc EXCEPT ![f] = "done"]
              /\ UNCHANGED <<args, k, known, proj, cache, idx, seen>>
 
-Next == Resolve \/ \E f \in Files : Start(f) \/ RegisterCallee(f) \/ ReadCache(f) \/ MissWrite(f) \/ Finish(f)
+Next == Resolve \/ \E f \in Files : Start(f) \/ RegRead(f) \/ RegWrite(f) \/ ReadCache(f) \/ MissWrite(f) \/ Finish(f)
 Spec == Init /\ [][Next]_vars
 
 \* a file is always attributed to the repository that actually contains it
 Attribution == \A f \in Files : proj[f] # "unresolved" => proj[f] = RepoOf[f]
 \* what a file sees = what it sees when linted alone (every interface derived from the callee file)
 Isolation == \A f \in Files : pc[f] = "done" =>
-               seen[f] = [i \in DOMAIN Uses[f] |-> Iface(Uses[f][i], "file")]
+               seen[f] = [i \in DOMAIN Uses(f) |-> Iface(Uses(f)[i], "file")]
 =============================================================================
